@@ -23,6 +23,7 @@ FLOPS = [
     {"name": "flopd", "inputs": ["CK", "D"], "outputs": ["Q"], "d": "D", "q": "Q", "ignore": ["CK"]},
     {"name": "dffrs", "inputs": ["CK", "D", "R", "S"], "outputs": ["Q", "QN"], "d": "D", "q": "Q", "ignore": ["CK", "R", "S", "QN"]},
     {"name": "reg", "inputs": ["din"], "outputs": ["dout"], "d": "din", "q": "dout", "ignore": []},
+    {"name": "GTECH_FD2", "inputs": ["CP", "CD", "D"], "outputs": ["Q", "QN"], "d": "D", "q": "Q", "ignore": ["CD", "CP", "QN"]},
 ]
 
 
@@ -39,6 +40,13 @@ def gen(rng, ctx):
         ks = rng.sample(outs, npairs)
         vs = rng.sample(ins, npairs)
         state_io = dict(zip(ks, vs))
+        if rng.random() < 0.12 and len(ins) >= 2 and outs:
+            # a feed-through node (input that is also an output) that is the state output of one pair
+            # and the state input of another:  a -> b,  o -> a
+            a, b = rng.sample(ins, 2)
+            cd["nodes"] = [[n, t, (o or n == a)] for n, t, o in cd["nodes"]]
+            state_io = {a: b, rng.choice(outs): a}
+            npairs = 2
         others = len(ins) - npairs
         nmax = 6 if others == 0 else max(1, min(6, (cap - npairs) // max(1, others)))
         n = rng.randint(1, nmax)
@@ -66,7 +74,7 @@ def gen(rng, ctx):
     clk_needed = len(fl["inputs"]) > 1
     if clk_needed:
         for p in fl["inputs"]:
-            if p != fl["d"] and p in ("clk", "CK"):
+            if p != fl["d"] and p in ("clk", "CK", "CP"):
                 cd["nodes"].append(["clock", "input", False])
     for k in range(nf):
         inst = f"r{k}"
@@ -76,7 +84,7 @@ def gen(rng, ctx):
             cd["nodes"].append([pin, "bb_input", False])
             if p == fl["d"]:
                 cd["edges"].append([rng.choice(drivers), pin])
-            elif p in ("clk", "CK"):
+            elif p in ("clk", "CK", "CP"):
                 cd["edges"].append(["clock", pin])
             elif rng.random() < 0.5:
                 if not any(x[0] == "rst" for x in cd["nodes"]):
@@ -153,6 +161,8 @@ def check(case, ctx):
         un = Net.of(uc)
         ctx.count("cmp:unroll")
         ctx.count(f"pairs:{len(state_io)}")
+        if set(state_io) & set(state_io.values()):
+            ctx.count("feedthrough_state_pair")
         if n < 2 or not state_io:
             ctx.trivial()
         ins = sorted(net.inputs())
@@ -207,6 +217,22 @@ def check(case, ctx):
     kw = dict(ignore_pins=case["ignore_pins"], add_flop_outputs=case["add_flop_outputs"], initial_values=(dict(iv) if isinstance(iv, dict) else iv), remove_unloaded=case["remove_unloaded"], prefix=case["prefix"])
     what = f"sequential_unroll(n={n}, {D}, {Q}, {kw})"
     ok, r = ctx.call(cg.tx.sequential_unroll, c, n, D, Q, **kw)
+    if ok and isinstance(iv, dict) and iv:
+        # the same initial_values object used for a second call (callers sweep n with one dict)
+        ctx.count("iv_dict_reused")
+        if kw["initial_values"] != iv:
+            ctx.violation("sequential_unroll_mutates_initial_values", f"{what}: the caller's initial_values dict became {kw['initial_values']}")
+            return
+        ok2, r2 = ctx.call(cg.tx.sequential_unroll, c, 1, D, Q, **kw)
+        if not ok2:
+            ctx.violation("sequential_unroll_raised", f"second call with the same initial_values object raised {r2!r}")
+            return
+        u2, m2 = r2
+        for inst_, v_ in iv.items():
+            t2 = u2.graph.nodes[m2[f"{inst_}_{Q}"][0]].get("type")
+            if t2 != v_:
+                ctx.violation("sequential_unroll_initial", f"second call with the same initial_values object: flop {inst_} starts as node type {t2!r}, requested {v_!r}")
+                return
     if not ok:
         ctx.violation("sequential_unroll_raised", f"{what} raised {r!r}\n{getattr(r, '_tb', '')}")
         return
@@ -217,6 +243,8 @@ def check(case, ctx):
     ctx.count(f"flop_outputs:{case['add_flop_outputs']}")
     ctx.count(f"remove_unloaded:{case['remove_unloaded']}")
     ctx.count(f"flops:{len(net.bbs)}")
+    if isinstance(case["ignore_pins"], str):
+        ctx.count("str_ignore_pins")
     if n < 2:
         ctx.trivial()
     insts = sorted(net.bbs)
@@ -316,5 +344,5 @@ def check(case, ctx):
 
 
 def gates(counters, table, tier):
-    need = ["cmp:unroll", "cmp:sequential_unroll", "pairs:0", "pairs:1", "pairs:2", "iv:None", "iv:0", "iv:1", "iv:dict", "iv:x", "flop_outputs:True", "flop_outputs:False", "remove_unloaded:True", "remove_unloaded:False", "n:1", "n:3", "flops:1", "flops:2", "flops:3"]
+    need = ["iv_dict_reused", "feedthrough_state_pair", "str_ignore_pins", "cmp:unroll", "cmp:sequential_unroll", "pairs:0", "pairs:1", "pairs:2", "iv:None", "iv:0", "iv:1", "iv:dict", "iv:x", "flop_outputs:True", "flop_outputs:False", "remove_unloaded:True", "remove_unloaded:False", "n:1", "n:3", "flops:1", "flops:2", "flops:3"]
     return [f"{k} seen {counters.get(k, 0)} times" for k in need if counters.get(k, 0) < 5]
